@@ -74,6 +74,11 @@ def run(ctx):
     # long scripts on stdin (beyond the old 1023-character buffer)
     for n in (400, 511, 512, 600, 2000, 9000):
         cases.append((bytes([0x61]) * 150 + R.push(b"\x07" * 75) * ((n - 150) // 76) + b"\x51", []))
+    # initial stack items around and beyond the 520-byte push limit (argv items are not size-checked): the raw listing must print them whole
+    for n in (519, 520, 521, 522, 600, 1000, 3000):
+        cases.append((b"\x51", [bytes([0xab]) * n]))
+        cases.append((b"\x7c", [bytes([0xcd]) * n, b"\x02"]))
+        cases.append((b"\x61", [b"\x03", bytes([0xef]) * n]))
     jobs = []
     lines = []
     for (sc, st) in cases:
